@@ -111,6 +111,15 @@ CHECKS = {
        'cyclic and colliding maps: only SelectorSyntaxError / NotImplementedError / documented KeyError may escape.',
   design_ref='DESIGN.md §4 C06',
   technique='z3 regex inclusion on live escape patterns + CrossHair symbolic execution of real css_unescape/parser, replay'),
+ 'C09': dict(
+  text='(a) Token lemmas through one step of the real tokenizer loop with symbolic fillers (whitespace/comment atoms with '
+       'symbolic comment bodies): "u C v" is one combine token with relation C, whitespace-bearing fillers are one '
+       'descendant combinator, fillers before ")" belong to the closing token, and the insignificant tail is recognised '
+       'exactly; escape spellings decode to themselves (symbolic characters). (b) End to end: 1015/6015 selector lists x '
+       '12/40 seeded respellings (fillers at every gap, escapes, quotes, case) must compile to the same structure and '
+       'select the same elements; bounded enumeration chosen by symbolic index.',
+  design_ref='DESIGN.md §4 C09',
+  technique='CrossHair symbolic execution of the real tokenizer step/css_unescape + z3 (symbolic fillers), respelling metamorphic relation, replay'),
 }
 
 NOT_APPLICABLE = {
